@@ -1,5 +1,5 @@
 import Pocket.Lemmas.StoreRead
-import Pocket.Lemmas.Refine
+import Pocket.Lemmas.Refine2
 /-
 C12 — a store call that fails changes nothing observable.
 Every lookup, query, marker query and index entry count is a function of the committed tables
@@ -68,6 +68,12 @@ reopens from the empty store -/
 theorem history_refines_abstract (ops : List AOp) :
     Abs.of (run {} (ops.map AOp.toOp)) = ops.foldl absStep (Abs.of {}) :=
   run_refines ops {} Inv_init
+
+/-- … and along EVERY history — vanishes and rebuilds included — of fewer than 2^32 − 1 operations with
+`u64` timestamps: the state of the concrete model is the state of the abstract store -/
+theorem every_history_refines_abstract (ops : List Op) (ht : ∀ op ∈ ops, opTimeOk op) (hlen : ops.length < U32MAX) :
+    Abs.of (run {} ops) = ops.foldl absOp (Abs.of {}) :=
+  full_history_refines ops ht hlen
 
 /-- on the abstract store C12 is a one-line reading: whatever the refusal, the retrievable events and
 both kinds of markers are untouched (only the append log may have grown) -/
